@@ -488,6 +488,7 @@ func (peer *peer) llgrRestartTimerStarted(family bgp.Family) {
 		if a.State.Family == family {
 			conf.AfiSafis[i].MpGracefulRestart.State.Running = false
 			conf.AfiSafis[i].LongLivedGracefulRestart.State.Running = true
+			conf.AfiSafis[i].LongLivedGracefulRestart.State.PeerRestartTimerExpired = false
 		}
 	}
 	peer.fsm.pConf.Update(&conf)
@@ -497,14 +498,14 @@ func (peer *peer) llgrRestartTimerExpired(family bgp.Family) bool {
 	peer.fsm.lock.Lock()
 	defer peer.fsm.lock.Unlock()
 
+	// all timers have expired when no other family still has its timer running
 	all := true
 	conf := peer.fsm.pConf.ReadCopy()
 	for i, a := range conf.AfiSafis {
 		if a.State.Family == family {
 			conf.AfiSafis[i].LongLivedGracefulRestart.State.PeerRestartTimerExpired = true
-		}
-		s := a.LongLivedGracefulRestart.State
-		if s.Received && !s.PeerRestartTimerExpired {
+			conf.AfiSafis[i].LongLivedGracefulRestart.State.Running = false
+		} else if a.LongLivedGracefulRestart.State.Running {
 			all = false
 		}
 	}
